@@ -172,6 +172,8 @@ func (d *Doc) Apply(o Op) (err error, panicked bool) {
 		return f.AddRetract(modfile.VersionInterval{Low: a(0), High: a(1)}, a(2)), false
 	case "DropRetract":
 		return f.DropRetract(modfile.VersionInterval{Low: a(0), High: a(1)}), false
+	case "AddComment":
+		f.AddComment(a(0))
 	case "AddTool":
 		return f.AddTool(a(0)), false
 	case "DropTool":
